@@ -17,7 +17,15 @@ F = env.functions
 PROTECTED = ['sigfield1', 'sigfield2', 'sigfield8', 'timestamp', 'custom', 'returned', 'E', 'P']
 
 
-def initial_cache(seed):
+def initial_cache(seed, variant=0):
+    if variant == 1:     # every protected name with a value of another type (float / str / None / tuple / bool ...)
+        return {
+            'sigfield1': 'text field', 'sigfield2': bytearray(b'\x02\x02'), 'sigfield8': None,
+            'timestamp': 1_700_000_000.75, 'custom': (b'a', [b'nested', 1]), 'returned': True, 'E': [b'e'], 'P': b'p',
+            'ts_threshold': 5, 'IR': [b'ir'], 'x': b'secret', 's': 1.5, b'k': [b'\x01'],
+        }
+    if variant == 2:
+        return {'timestamp': '1700000000', 'sigfield1': [b'a', b'b'], 'custom': {'inner': [1, 2]}, 'returned': 0, b'k': [b'\x01']}
     return {
         'sigfield1': env.sym(seed, 'c8.f1', 6), 'sigfield2': b'\x02\x02', 'sigfield8': b'\x08',
         'timestamp': 1_700_000_000, 'custom': [b'a', 5, 1.5, 'x'], 'returned': 'embedder', 'E': 7, 'P': [b'p'],
@@ -74,6 +82,15 @@ def attack_statements(seed):
         ('GET_VALUE P', op('GET_VALUE') + lv(b'P')),
         ('CHECK_TEMPLATE', P(b'x') + op('CHECK_TEMPLATE') + b'\x01'),
         ('CTS', P(b'\x00') + op('CHECK_TIMESTAMP')),
+        ('CTSV', P(b'\x00') + op('CHECK_TIMESTAMP_VERIFY')),
+        ('CE', P(b'\x00') + op('CHECK_EPOCH')),
+        ('GET_MESSAGE ff', op('GET_MESSAGE') + b'\xff'),
+        ('GET_MESSAGE 00', op('GET_MESSAGE') + b'\x00'),
+        ('CHECK_SIG', P(b'\x00' * 64) + P(pk) + op('CHECK_SIG') + b'\x00'),
+        ('CHECK_TEMPLATE 83', P(b'x') + P(b'y') + P(b'z') + op('CHECK_TEMPLATE') + b'\x83'),
+        ('GET_VALUE timestamp', op('GET_VALUE') + lv(b'timestamp')),
+        ('GET_VALUE sigfield1', op('GET_VALUE') + lv(b'sigfield1')),
+        ('GET_VALUE returned', op('GET_VALUE') + lv(b'returned')),
     ]
     for fl in (b'\x00', b'\x01', b'\x09', b'timestamp', b'returned', b'ts_threshold'):
         out.append(('SET_FLAG %r' % fl, op('SET_FLAG') + lv(fl)))
@@ -81,8 +98,8 @@ def attack_statements(seed):
     return out
 
 
-def judge(ctx, script, sig, seed, limits=(1024, 1024, 128)):
-    init = initial_cache(seed)
+def judge(ctx, script, sig, seed, limits=(1024, 1024, 128), variant=0):
+    init = initial_cache(seed, variant)
     before = copy.deepcopy({k: v for k, v in init.items() if type(k) is str})
     mon, exc, stack, rc = monitor.run_monitored(script, limits, cache=init, contracts=stepspace.CONTRACTS)
     ctx.ran()
@@ -116,6 +133,15 @@ def attack_case(ctx, idxs):
     script = b''.join(st[i][1] for i in idxs)
     ctx.state((script,))
     judge(ctx, script, {'family': 'cache attack'}, ctx.seed)
+    if len(idxs) == 1:
+        # every single cache-touching path, also inside IF / TRY / EVAL, on initial caches whose protected
+        # entries have other value types
+        for v in (1, 2):
+            for wrapname, wrapped in (('top', script), ('IF', op('TRUE') + op('IF') + len(script).to_bytes(2, 'big') + script),
+                                      ('TRY', op('TRY_EXCEPT') + len(script).to_bytes(2, 'big') + script + b'\x00\x00'),
+                                      ('EVAL', P(script) + op('EVAL') if len(script) < 1000 else script)):
+                ctx.state((wrapped, v))
+                judge(ctx, wrapped, {'family': 'cache attack on typed initial cache'}, ctx.seed, variant=v)
     # consequence: the signed message and the time check are unchanged by the prefix
     tail = op('GET_MESSAGE') + b'\x00' + P(b'\x00') + op('CHECK_TIMESTAMP')
     init = initial_cache(ctx.seed)
